@@ -329,6 +329,7 @@ def standard_pipeline(ctx, *, sub, mc=(), gen=(), trace, random_n=0, random_extr
                                       record {"t":"VERDICT","id":n,"ok":bool,"sig":{..}} per line
       random_n: additional scenarios from the harness's seeded random generator (`vh gen <sub>`), same vocabulary
     Violations (ok = false) are registered with their signature; the caller then calls finish()."""
+    checked = checked or bool(os.environ.get("VERIF_CHECKED"))      # (experiments: force the second build for any property)
     ctx.build_harness(checked=checked)
     for module, cfg, kw in mc:
         ctx.tlc(module, cfg, **kw)
